@@ -29,9 +29,9 @@ EXPLANATION = (
 )
 BOUNDS = {
     "quick": "all 3872 exposed names (string route); 400 generated compound expressions (1-4 factors, exponents from E, sqrt, parentheses, "
-             "coefficients) by string and by operator route; 160 compound and ~300 atomic commensurable conversion pairs with symbolic x; "
+             "coefficients) by string and - where at most one root of a compound sub-expression occurs, un-nested - by operator route; 160 compound and ~300 atomic commensurable conversion pairs with symbolic x; "
              "all 145 table rows + 22 prefixes (ground)",
-    "thorough": "all names; 3000 generated expressions; 1000 compound pairs (<= 1 square root, |exponent| <= 3); every ordered pair of table symbols sharing a dimension "
+    "thorough": "all names; 6000 generated expressions (1-5 factors); 2000 compound pairs (<= 1 square root, |exponent| <= 3); every ordered pair of table symbols sharing a dimension "
                 "(~1100, with SI prefixes on prefixable ones); all rows (ground)",
 }
 OUTSIDE = ("unit strings that unyt rejects (acceptance of documented names is C14); offset units in conversions and compounds (C03/C08); "
@@ -179,6 +179,39 @@ def struct_scale(n, S):
     raise KeyError(k)
 
 
+def _frac(n):
+    return n[0] == "sqrt" or (n[0] == "pow" and n[2].denominator != 1)
+
+
+def compound_roots(n):
+    """(number of fractional powers taken of a non-atomic operand, is any of them nested around another fractional power)"""
+    if n[0] in ("atom", "num"):
+        return 0, False
+    cnt, nested = 0, False
+    for c in n[1:]:
+        if isinstance(c, tuple):
+            k, ne = compound_roots(c)
+            cnt += k
+            nested = nested or ne
+    if _frac(n) and n[1][0] != "atom":
+        cnt += 1
+        nested = nested or any_frac(n[1])
+    return cnt, nested
+
+
+def any_frac(n):
+    if n[0] in ("atom", "num"):
+        return False
+    return _frac(n) or any(any_frac(c) for c in n[1:] if isinstance(c, tuple))
+
+
+def operator_route_ok(n):
+    """the operator route keeps roots of products as roots of products (one witness per product term): bounded to one
+    such root, not nested, so that the path condition stays easy for nlsat"""
+    cnt, nested = compound_roots(n)
+    return not has_num(n) and cnt <= 1 and not nested
+
+
 def has_num(n):
     return n[0] == "num" or any(has_num(c) for c in n[1:] if isinstance(c, tuple))
 
@@ -256,14 +289,14 @@ def gen_tree(rng, atoms):
     return top
 
 
-def gen_expressions(mods, count, seed=SEED):
+def gen_expressions(mods, count, seed=SEED, max_factors=4):
     rng = random.Random(seed)
     pool = atom_pool(mods)
     syms = sorted({a.sym for a in pool})
     by_sym = {s: [a for a in pool if a.sym == s] for s in syms}
     out, seen = [], set()
     while len(out) < count:
-        k = rng.choice([1, 2, 2, 3, 3, 4, 4])
+        k = rng.choice([1, 2, 2, 3, 3, 4, 4] + ([5, 5] if max_factors >= 5 else []))
         atoms = [rng.choice(by_sym[rng.choice(syms)]) for _ in range(k)]     # every table symbol equally likely
         t = gen_tree(rng, atoms)
         d, m = max_den(t)
@@ -277,7 +310,7 @@ def gen_expressions(mods, count, seed=SEED):
     return out
 
 
-def gen_pairs(mods, count, seed=SEED + 1):
+def gen_pairs(mods, count, seed=SEED + 1, max_factors=4):
     """commensurable compound pairs: the same tree with every atom replaced by another unit of the same dimension"""
     rng = random.Random(seed)
     T = tables()
@@ -285,7 +318,7 @@ def gen_pairs(mods, count, seed=SEED + 1):
     by_dim = {}
     for a in pool:
         by_dim.setdefault(str(sorted(dimvec(T.rows[a.sym][1]).items())), []).append(a)
-    trees = gen_expressions(mods, count * 6, seed)
+    trees = gen_expressions(mods, count * 6, seed, max_factors)
     out = []
     for t in trees:
         if len(out) >= count:
@@ -347,7 +380,7 @@ def make_expr_case(k, trees):
             ctx.require(f"compound scale (string)/{k}.{i}", close(u.base_value, E), expr=s, got=str(u))
             ctx.require(f"compound dimensions (string)/{k}.{i}", dimvec(u.dimensions) == oracle_dims(t, T), expr=s, got=str(u.dimensions))
             ctx.observe(f"expr/{i}", u.base_value)
-            if not has_num(t):
+            if operator_route_ok(t):
                 units = {a.name: Unit(a.name, registry=reg) for a in atoms_of(t)}
                 ro = call(structural, t, units)
                 if ro[0] == "raise":
@@ -449,11 +482,11 @@ def cases(tier, mods):
     names += [p + s for p in PREFIX_SYMS for s in T.syms if s in T.prefixable and p + s not in inv_name_alternatives]
     for k in range(0, len(names), CHUNK):
         out.append(make_names_case(k // CHUNK, names[k:k + CHUNK]))
-    n_expr, n_pairs, per_e, per_p = (400, 160, 8, 2) if tier == "quick" else (3000, 1000, 10, 2)
-    trees = gen_expressions(mods, n_expr)
+    n_expr, n_pairs, per_e, per_p, mf = (400, 160, 8, 2, 4) if tier == "quick" else (6000, 2000, 10, 2, 5)
+    trees = gen_expressions(mods, n_expr, max_factors=mf)
     for k in range(0, len(trees), per_e):
         out.append(make_expr_case(k // per_e, trees[k:k + per_e]))
-    pairs = gen_pairs(mods, n_pairs)
+    pairs = gen_pairs(mods, n_pairs, max_factors=mf)
     for k in range(0, len(pairs), per_p):
         out.append(make_to_case("compound", k // per_p, pairs[k:k + per_p]))
     ap = atomic_pairs(tier)
